@@ -38,6 +38,7 @@ type Ctx struct {
 	descOut  interface{}
 	deadline time.Time
 	Stopped  bool
+	lastBeat time.Time
 }
 
 type descSentinel struct{}
@@ -85,6 +86,20 @@ func (c *Ctx) Begin(idx int64, desc func() interface{}) bool {
 		c.jw.Flush()
 	}
 	return true
+}
+
+// Heartbeat tells the parent that the current case is still making progress (long cases).
+func (c *Ctx) Heartbeat() {
+	if c.jw == nil {
+		return
+	}
+	now := time.Now()
+	if now.Sub(c.lastBeat) < time.Second {
+		return
+	}
+	c.lastBeat = now
+	c.jw.WriteString("H\n")
+	c.jw.Flush()
 }
 
 type ckpt struct {
